@@ -195,6 +195,21 @@ func (c *Ctx) Ite(cond, a, b *Term) *Term {
 		return a
 	}
 	if a.sort == SBool {
+		switch {
+		case a.isConst && b.isConst:
+			if a.cBool {
+				return cond
+			}
+			return c.Not(cond)
+		case a.isConst && a.cBool:
+			return c.Or(cond, b)
+		case a.isConst && !a.cBool:
+			return c.And(c.Not(cond), b)
+		case b.isConst && b.cBool:
+			return c.Or(c.Not(cond), a)
+		case b.isConst && !b.cBool:
+			return c.And(cond, a)
+		}
 		return c.mk("ite", SBool, cond, a, b)
 	}
 	var lo, hi *big.Int
@@ -222,9 +237,36 @@ func maxBig(a, b *big.Int) *big.Int {
 
 // ---------- comparisons ----------
 
+// constLeafIte reports whether t is an ite tree whose leaves are all integer constants.
+func constLeafIte(t *Term, depth int) bool {
+	if t.isConst {
+		return true
+	}
+	if t.op != "ite" || t.sort != SInt || depth > 6 {
+		return false
+	}
+	return constLeafIte(t.args[1], depth+1) && constLeafIte(t.args[2], depth+1)
+}
+
+// distribute a comparison with a constant over an ite tree with constant leaves
+func (c *Ctx) distCmp(t *Term, f func(leaf *Term) *Term) *Term {
+	if t.isConst {
+		return f(t)
+	}
+	return c.Ite(t.args[0], c.distCmp(t.args[1], f), c.distCmp(t.args[2], f))
+}
+
 func (c *Ctx) Eq(a, b *Term) *Term {
 	if a == b {
 		return c.tTrue
+	}
+	if a.sort == SInt {
+		if b.isConst && !a.isConst && constLeafIte(a, 0) {
+			return c.distCmp(a, func(l *Term) *Term { return c.Eq(l, b) })
+		}
+		if a.isConst && !b.isConst && constLeafIte(b, 0) {
+			return c.distCmp(b, func(l *Term) *Term { return c.Eq(a, l) })
+		}
 	}
 	if a.isConst && b.isConst {
 		if a.sort == SBool {
@@ -268,6 +310,12 @@ func (c *Ctx) Lt(a, b *Term) *Term {
 	if a == b {
 		return c.tFalse
 	}
+	if b.isConst && constLeafIte(a, 0) {
+		return c.distCmp(a, func(l *Term) *Term { return c.Lt(l, b) })
+	}
+	if a.isConst && constLeafIte(b, 0) {
+		return c.distCmp(b, func(l *Term) *Term { return c.Lt(a, l) })
+	}
 	if a.hi != nil && b.lo != nil && a.hi.Cmp(b.lo) < 0 {
 		return c.tTrue
 	}
@@ -282,6 +330,12 @@ func (c *Ctx) Le(a, b *Term) *Term {
 	}
 	if a == b {
 		return c.tTrue
+	}
+	if b.isConst && constLeafIte(a, 0) {
+		return c.distCmp(a, func(l *Term) *Term { return c.Le(l, b) })
+	}
+	if a.isConst && constLeafIte(b, 0) {
+		return c.distCmp(b, func(l *Term) *Term { return c.Le(a, l) })
 	}
 	if a.hi != nil && b.lo != nil && a.hi.Cmp(b.lo) <= 0 {
 		return c.tTrue
@@ -319,7 +373,22 @@ func (c *Ctx) Add(a, b *Term) *Term {
 	if b.isConst && b.cInt.Sign() == 0 {
 		return a
 	}
+	// normal form: constant on the right, nested constants folded
+	if a.isConst {
+		a, b = b, a
+	}
+	if b.isConst && a.op == "+" && a.args[1].isConst {
+		return c.Add(a.args[0], c.IntBig(new(big.Int).Add(a.args[1].cInt, b.cInt)))
+	}
 	return c.mkI("+", addB(a.lo, b.lo), addB(a.hi, b.hi), a, b)
+}
+
+// splitConst returns (x, k) with t == x + k
+func (c *Ctx) splitConst(t *Term) (*Term, *big.Int) {
+	if t.op == "+" && t.args[1].isConst {
+		return t.args[0], t.args[1].cInt
+	}
+	return t, nil
 }
 
 func (c *Ctx) Sub(a, b *Term) *Term {
@@ -331,6 +400,21 @@ func (c *Ctx) Sub(a, b *Term) *Term {
 	}
 	if a == b {
 		return c.Int(0)
+	}
+	if b.isConst {
+		return c.Add(a, c.IntBig(new(big.Int).Neg(b.cInt)))
+	}
+	xa, ka := c.splitConst(a)
+	xb, kb := c.splitConst(b)
+	if ka != nil || kb != nil {
+		k := new(big.Int)
+		if ka != nil {
+			k.Add(k, ka)
+		}
+		if kb != nil {
+			k.Sub(k, kb)
+		}
+		return c.Add(c.Sub(xa, xb), c.IntBig(k))
 	}
 	return c.mkI("-", subB(a.lo, b.hi), subB(a.hi, b.lo), a, b)
 }
@@ -377,6 +461,15 @@ func (c *Ctx) DivE(a, b *Term) *Term {
 	}
 	if b.isConst && b.cInt.Cmp(big.NewInt(1)) == 0 {
 		return a
+	}
+	// exact division: (x*b) div b == x for b != 0
+	if a.op == "*" && !b.isConst && (b.lo != nil && b.lo.Sign() > 0 || b.hi != nil && b.hi.Sign() < 0) {
+		if a.args[1] == b {
+			return a.args[0]
+		}
+		if a.args[0] == b {
+			return a.args[1]
+		}
 	}
 	var lo, hi *big.Int
 	if a.lo != nil && a.lo.Sign() >= 0 && b.lo != nil && b.lo.Sign() > 0 {
